@@ -45,14 +45,20 @@ func verifUnitSet(k int) *UnitsDefinition {
 	panic("bad unit set")
 }
 
-func verifUnitChoice() int { return nondetChoice("units", verifNUnits) }
+func verifUnitChoice() int {
+	if verifTier() > 0 {
+		return nondetChoice("units", verifNUnits)
+	}
+	// quick tier: powers of two, sexagesimal, no multipliers, odd multipliers with prefix names
+	return [4]int{0, 2, 3, 5}[nondetChoice("unitsQuick", 4)]
+}
 
 // verifQuantity returns a symbolic non-negative quantity below a window bound chosen per tier
 func verifQuantity(name string) int64 {
 	d := nondetInt64(name)
-	bound := int64(1) << 20
+	bound := int64(1) << 12
 	if verifTier() > 0 {
-		bound = int64(1) << 32
+		bound = int64(1) << 20
 	}
 	verifAssume(vAnd(d >= 0, d < bound))
 	return d
